@@ -565,6 +565,9 @@ def run(run):
                         "guaranteed": [[r["len"], r["retry"]] for r in list(net.sent["client"].values())[:6]]})
     directed_d17(run, cases, impl, mod)
     run.compare("conn_run", cases, impl, mod)
+    live_sessions(run, rng, th)
+    callback_worlds(run, rng, 200 if th else 16)
+    # (run last, so that the sessions above draw the same random streams as before this section existed)
     # (e) long-lived connections: guaranteed sends lost AT the datagram-counter wrap
     wcases, wimpl, wmod = [], [], []
     for k in range(34):
@@ -598,8 +601,6 @@ def run(run):
         if n:
             run.nt((label, n))
     run.compare("conn_run_from", wcases, wimpl, wmod)
-    live_sessions(run, rng, th)
-    callback_worlds(run, rng, 200 if th else 16)
     run.rules.append(CB_RULE)
     run.rules.append(RULE)
     run.rules.append(WRAP_RULE)
